@@ -18,3 +18,27 @@ def _c17_seam_point():
 
 
 WITNESSES["c17_seam_point"] = _c17_seam_point
+
+
+def _c01_truncated_lstsq():
+    import warnings
+
+    import verde
+
+    rng = np.random.RandomState(0)
+    for n in (30, 60, 100):
+        rng.uniform(0, 1, n), rng.uniform(0, 1, n), rng.uniform(-100, 100, n)
+    n = 200
+    e, nn, d = rng.uniform(0, 1, n), rng.uniform(0, 1, n), rng.uniform(-100, 100, n)
+    with warnings.catch_warnings():
+        warnings.simplefilter("ignore")
+        s = verde.Spline().fit((e, nn), d)
+        misfit = float(np.abs(s.predict((e, nn)) - d).max())
+    J = s.jacobian((e, nn), s.force_coords_)
+    cond = float(np.linalg.cond(J / J.std(axis=0)))
+    if misfit > 1e4 * cond * 2.0**-52 * 100:
+        return True, "misfit %.3g at cond %.3g" % (misfit, cond)
+    return False, "misfit %.3g at cond %.3g is within the conditioning tolerance" % (misfit, cond)
+
+
+WITNESSES["c01_truncated_lstsq"] = _c01_truncated_lstsq
